@@ -821,8 +821,37 @@ pub fn canonical(trace: &Trace) -> String {
     serde_json::to_string(&t).unwrap_or_default()
 }
 
+struct HashWriter(u64);
+impl std::io::Write for HashWriter {
+    fn write(&mut self, buf: &[u8]) -> std::io::Result<usize> {
+        for b in buf {
+            self.0 ^= *b as u64;
+            self.0 = self.0.wrapping_mul(0x0000_0100_0000_01b3);
+        }
+        Ok(buf.len())
+    }
+    fn flush(&mut self) -> std::io::Result<()> {
+        Ok(())
+    }
+}
+
+/// Hash of the canonical trace, computed without materialising it.
 pub fn digest(trace: &Trace) -> u64 {
-    fnv1a(canonical(trace).as_bytes())
+    let mut w = HashWriter(0xcbf2_9ce4_8422_2325);
+    for s in &trace.steps {
+        let mut d = s.dir.clone();
+        if let IndexInfo::Open { segments, .. } = &mut d.index {
+            *segments = 0;
+        }
+        d.files.clear();
+        let _ = serde_json::to_writer(&mut w, &d);
+        if let Some(c) = &s.child {
+            let _ = serde_json::to_writer(&mut w, &c.exit);
+            let _ = serde_json::to_writer(&mut w, &c.events);
+            let _ = serde_json::to_writer(&mut w, &c.stdout);
+        }
+    }
+    w.0
 }
 
 pub fn history_hash(h: &History) -> u64 {
